@@ -81,6 +81,9 @@ for d in sorted(glob.glob(os.path.join(ROOT, "seeded", "*"))):
         "detected": own.get("exit") == 1,
         "detected_by": detected_by,
     }
+    nf = os.path.join(d, "note.txt")
+    if os.path.isfile(nf):
+        meta["note"] = open(nf).read().strip()
     if fin.get("demo_exit_with_patch") == 0:
         meta["status"] = "superseded: at the final /repo HEAD the demonstration passes with the change applied (the code it touched was rewritten by fix e7f9b4a), so the change no longer breaks the property; kept for the record, not counted"
     hist_file = "" + os.path.join(ROOT, "seeded", "history_round1.json") + ""
